@@ -12,15 +12,29 @@ package main
 //
 // Emits coq/gen/Gen_AuthBackRoutes.v: for every registered route its path, the methods given to
 // withMethods, the names of the middleware wrapped around the handler (outermost first) and the
-// handler's name. Every statement of newMux must have one of the shapes above; any other way of
-// registering a route (Handle, PathPrefix, a handler that is not a chain of p.<middleware>(...)
-// calls around p.<Handler>, a route without withMethods) is an error: the tie is reported broken
-// rather than silently missing a route.
+// handler's name.
+//
+// newMux (the one method of that name in internal/auth, whichever file holds it) is EXECUTED by the
+// symbolic evaluator of eval.go on an opaque receiver, and the table is read off the trace of calls:
+//
+//	<pkg>.NewRouter()                      exactly one: the router
+//	<router>.UseEncodedPath()              ignored
+//	<router>.HandleFunc(path, h)           a route (also <router>.Handle(path, h): for a HandlerFunc the same registration)
+//	    path  a resolvable string
+//	    h     <recv>.withMethods(<chain>, methods...)    methods: resolvable strings in source order
+//	    chain <recv>.<middleware>(<chain>) | <recv>.<Handler>      (http.HandlerFunc(x) conversions are transparent)
+//	return    <wrapper>(... <wrapper>(<router>))         at least one wrapper
+//
+// so a route table walked by a loop, a helper method that returns the table, local closures that name
+// a composition of middleware or do the registration, constants for paths and methods all yield the
+// same rows as the statement-per-route form. Every other call in the trace must be part of some route's
+// chain or of the returned value; anything else (a route registered through another router method,
+// under an iteration over a map — the table is ordered —, a wrapper that is not a method of the
+// receiver, a route without withMethods, an unresolvable path or method) is an error: the tie is
+// reported broken rather than silently missing a route.
 
 import (
 	"fmt"
-	"go/ast"
-	"path/filepath"
 	"strings"
 )
 
@@ -33,121 +47,133 @@ type authRoute struct {
 	handler  string
 }
 
-// p.<name> where p is the receiver
-func recvSel(e ast.Expr, recv string) (string, bool) {
-	se, ok := e.(*ast.SelectorExpr)
-	if !ok {
-		return "", false
-	}
-	id, ok := se.X.(*ast.Ident)
-	if !ok || id.Name != recv {
-		return "", false
-	}
-	return se.Sel.Name, true
-}
-
 func genAuthBackRoutes(repo string) (string, error) {
-	file := "internal/auth/authenticator.go"
-	_, f, err := parseFile(filepath.Join(repo, file))
+	pkg, err := loadPackage(repo, "internal/auth")
 	if err != nil {
 		return "", err
 	}
-	var fn *ast.FuncDecl
-	for _, d := range f.Decls {
-		if fd, ok := d.(*ast.FuncDecl); ok && fd.Name.Name == "newMux" && fd.Recv != nil {
-			fn = fd
-		}
+	fd, err := pkg.method("newMux")
+	if err != nil {
+		return "", err
 	}
-	if fn == nil || fn.Body == nil || len(fn.Recv.List) != 1 || len(fn.Recv.List[0].Names) != 1 {
-		return "", fmt.Errorf("%s: method newMux not found", file)
+	file := pkg.fileName[pkg.funcFile[fd]]
+	if fd.Body == nil || len(fd.Recv.List) != 1 || len(fd.Recv.List[0].Names) != 1 {
+		return "", fmt.Errorf("%s: method newMux has no named receiver", file)
 	}
-	recv := fn.Recv.List[0].Names[0].Name
-	router := ""
-	var routes []authRoute
-	for _, st := range fn.Body.List {
-		switch s := st.(type) {
-		case *ast.AssignStmt: // serviceMux := mux.NewRouter()
-			if len(s.Lhs) != 1 || len(s.Rhs) != 1 || router != "" {
-				return "", fmt.Errorf("%s: newMux: unexpected assignment", file)
-			}
-			id, ok := s.Lhs[0].(*ast.Ident)
-			call, ok2 := s.Rhs[0].(*ast.CallExpr)
-			if !ok || !ok2 {
-				return "", fmt.Errorf("%s: newMux: unexpected assignment", file)
-			}
-			se, ok := call.Fun.(*ast.SelectorExpr)
-			if !ok || se.Sel.Name != "NewRouter" || len(call.Args) != 0 {
+	ev := newEvaluator(pkg)
+	fv := ev.funcOfDecl(fd, nil)
+	ret, trace, err := ev.runRoot(fv)
+	if err != nil {
+		return "", fmt.Errorf("%s: newMux: %v", file, err)
+	}
+	recv := fv.recv
+	// the router
+	var router *callVal
+	for _, e := range trace {
+		if _, name, ok := nameOf(e.fun); ok && name == "NewRouter" {
+			if _, isSel := e.fun.(*selVal); !isSel || len(e.args) != 0 || e.ellipsis {
 				return "", fmt.Errorf("%s: newMux: router is not built by mux.NewRouter()", file)
 			}
-			router = id.Name
-		case *ast.ExprStmt:
-			call, ok := s.X.(*ast.CallExpr)
-			if !ok {
-				return "", fmt.Errorf("%s: newMux: unexpected statement", file)
+			if router != nil {
+				return "", fmt.Errorf("%s: newMux: more than one router is built", file)
 			}
-			name, ok := recvSel(call.Fun, router)
-			if !ok || router == "" {
-				return "", fmt.Errorf("%s: newMux: call that is not a method of the router", file)
-			}
-			switch name {
-			case "UseEncodedPath":
-				continue
-			case "HandleFunc":
-			default:
-				return "", fmt.Errorf("%s: newMux: routes registered through %s.%s are not understood", file, router, name)
-			}
-			if len(call.Args) != 2 {
-				return "", fmt.Errorf("%s: newMux: HandleFunc with %d arguments", file, len(call.Args))
-			}
-			var rt authRoute
-			if rt.path, err = stringLit(call.Args[0]); err != nil {
-				return "", fmt.Errorf("%s: newMux: route path: %v", file, err)
-			}
-			outer, ok := call.Args[1].(*ast.CallExpr)
-			if !ok {
-				return "", fmt.Errorf("%s: newMux: %s: handler is not wrapped by withMethods", file, rt.path)
-			}
-			if n, ok := recvSel(outer.Fun, recv); !ok || n != "withMethods" || len(outer.Args) < 1 {
-				return "", fmt.Errorf("%s: newMux: %s: outermost wrapper is not %s.withMethods", file, rt.path, recv)
-			}
-			for _, m := range outer.Args[1:] {
-				ms, err := stringLit(m)
-				if err != nil {
-					return "", fmt.Errorf("%s: newMux: %s: method: %v", file, rt.path, err)
-				}
-				rt.methods = append(rt.methods, ms)
-			}
-			inner := outer.Args[0]
-			for {
-				if h, ok := recvSel(inner, recv); ok {
-					rt.handler = h
-					break
-				}
-				ce, ok := inner.(*ast.CallExpr)
-				if !ok || len(ce.Args) != 1 {
-					return "", fmt.Errorf("%s: newMux: %s: handler chain has an unexpected shape", file, rt.path)
-				}
-				w, ok := recvSel(ce.Fun, recv)
-				if !ok {
-					return "", fmt.Errorf("%s: newMux: %s: wrapper is not a method of %s", file, rt.path, recv)
-				}
-				rt.wrappers = append(rt.wrappers, w)
-				inner = ce.Args[0]
-			}
-			routes = append(routes, rt)
-		case *ast.ReturnStmt:
-			if len(s.Results) != 1 {
-				return "", fmt.Errorf("%s: newMux: unexpected return", file)
-			}
-			call, ok := s.Results[0].(*ast.CallExpr)
-			if !ok || len(call.Args) != 1 {
-				return "", fmt.Errorf("%s: newMux: unexpected return", file)
-			}
-			if id, ok := call.Args[0].(*ast.Ident); !ok || id.Name != router {
-				return "", fmt.Errorf("%s: newMux: does not return the router it filled", file)
-			}
+			router = e
+		}
+	}
+	if router == nil {
+		return "", fmt.Errorf("%s: newMux: router is not built by mux.NewRouter()", file)
+	}
+	var routes []authRoute
+	used := map[*callVal]bool{router: true}
+	seen := map[value]bool{}
+	var others []*callVal
+	for _, e := range trace {
+		if e == router {
+			continue
+		}
+		x, name, ok := nameOf(e.fun)
+		if !ok || x != value(router) {
+			others = append(others, e)
+			continue
+		}
+		used[e] = true
+		switch name {
+		case "UseEncodedPath":
+			continue
+		case "HandleFunc", "Handle":
 		default:
-			return "", fmt.Errorf("%s: newMux: unexpected statement %T", file, st)
+			return "", fmt.Errorf("%s: newMux: routes registered through %s.%s are not understood", file, "the router", name)
+		}
+		if e.unord {
+			return "", fmt.Errorf("%s: newMux: %s: routes are registered while ranging over a map: their order is unspecified", file, pkg.pos(e.site))
+		}
+		if len(e.args) != 2 || e.ellipsis {
+			return "", fmt.Errorf("%s: newMux: %s with %d arguments", file, name, len(e.args))
+		}
+		var rt authRoute
+		p, ok := e.args[0].(strVal)
+		if !ok {
+			return "", fmt.Errorf("%s: newMux: route path: %s is not a resolvable string", file, describe(e.args[0]))
+		}
+		rt.path = string(p)
+		reachableCalls(e.args[1], used, seen)
+		outer, ok := stripHandlerConv(e.args[1]).(*callVal)
+		if !ok {
+			return "", fmt.Errorf("%s: newMux: %s: handler is not wrapped by withMethods (it is %s)", file, rt.path, describe(e.args[1]))
+		}
+		if x, n, ok := nameOf(outer.fun); !ok || n != "withMethods" || x != recv || len(outer.args) < 1 || outer.ellipsis {
+			return "", fmt.Errorf("%s: newMux: %s: outermost wrapper is not %s.withMethods (it is %s)", file, rt.path, fv.recvName, describe(outer))
+		}
+		if outer.argUnord {
+			return "", fmt.Errorf("%s: newMux: %s: the order of the methods depends on map iteration order", file, rt.path)
+		}
+		for _, m := range outer.args[1:] {
+			ms, ok := m.(strVal)
+			if !ok {
+				return "", fmt.Errorf("%s: newMux: %s: method: %s is not a resolvable string", file, rt.path, describe(m))
+			}
+			rt.methods = append(rt.methods, string(ms))
+		}
+		inner := stripHandlerConv(outer.args[0])
+		for {
+			ce, isCall := inner.(*callVal)
+			if !isCall {
+				x, h, ok := nameOf(inner)
+				if !ok || x != recv {
+					return "", fmt.Errorf("%s: newMux: %s: handler chain has an unexpected shape: %s is not a method of %s", file, rt.path, describe(inner), fv.recvName)
+				}
+				rt.handler = h
+				break
+			}
+			if len(ce.args) != 1 || ce.ellipsis {
+				return "", fmt.Errorf("%s: newMux: %s: handler chain has an unexpected shape: %s", file, rt.path, describe(ce))
+			}
+			x, w, ok := nameOf(ce.fun)
+			if !ok || x != recv {
+				return "", fmt.Errorf("%s: newMux: %s: wrapper is not a method of %s: %s", file, rt.path, fv.recvName, describe(ce))
+			}
+			rt.wrappers = append(rt.wrappers, w)
+			inner = stripHandlerConv(ce.args[0])
+		}
+		routes = append(routes, rt)
+	}
+	// the return value: wrappers around the router that was filled
+	v, depth := ret, 0
+	for v != value(router) {
+		c, ok := v.(*callVal)
+		if !ok || len(c.args) != 1 || c.ellipsis {
+			return "", fmt.Errorf("%s: newMux: does not return the router it filled (it returns %s)", file, describe(ret))
+		}
+		v = c.args[0]
+		depth++
+	}
+	if depth == 0 {
+		return "", fmt.Errorf("%s: newMux: unexpected return (the bare router)", file)
+	}
+	reachableCalls(ret, used, seen)
+	for _, e := range others {
+		if !used[e] {
+			return "", fmt.Errorf("%s: newMux: %s: the call %s is neither a route registration nor part of a route's handler chain", file, pkg.pos(e.site), describe(e))
 		}
 	}
 	if len(routes) == 0 {
